@@ -10,6 +10,12 @@ Streams (each: the REAL function in-process, the Lean model through the driver, 
   load     : synthetic matdyn files (1-6 q-points, 3-60 modes) printed by the harness in the Fortran layout of the
              shipped test files; ORACLE = float() of the very strings that were printed.
   mismatch : wrong dimensions must raise (both tools).
+  rx       : the backtracking matcher of CijModel/EvecSrc.lean, run by the driver on the regex AST translated from evec_load.py on THIS
+             run, against Python's `re` on the compiled patterns of the module (q / freq lines, damaged lines, adversarial strings).
+  *_src    : the interpreters of the translated description (`runSort`, `runDisp`, `evecLoadS`) against the real functions.
+Every quick run contains: q-points printed exactly `0.000000 0.000000 0.000000` (also `0.0000`, `-0.0000`, `0 0 0`, not first in the
+file) with genuinely complex vectors; mismatched shapes whose element count is a multiple of 3N (3N×(3N±1), transposed layouts, M×6N,
+wrong mass count with 3(N±1) | M·K); second bases in which several row maxima exceed 0.5 and two rows share their strongest partner.
 Outside the quantifier, model-vs-code only: duplicated target vectors (None entries), vector components that fill
 all ten columns (first character lost), truncated files.
 """
@@ -30,13 +36,16 @@ ASSUMPTIONS = [
     "disp2eig: positive masses, non-zero rows; complex sqrt of a norm with zero imaginary part equals the real sqrt (numpy)",
     "load: files in matdyn's layout as printed by the shipped tests/data/pwscf.eig (the harness' printer reproduces that file byte for byte from its parsed values — checked on every run); |component| < 10",
     "every Python exception type counts as 'rejected'",
+    "rx / load: ASCII text; Python's \\s and \\d also match non-ASCII blanks and digits, the model's classes are the six ASCII blanks and 0-9",
 ]
 TRUSTED_EXTRA = [
     "C20: float rounding is outside the theorems (greedy loop proved over any linear order, margins over exact inner products); the Float run of the model is compared with numpy on every case",
-    "C20: evec_load's regex engine and float() are outside the Lean model (hand-written deterministic scanners + exact decimals in the driver; compared with the real loader on every file)",
+    "C20: float() is outside the Lean model (exact decimals in the driver; compared with the real loader on every file); Python's `re` is modelled by a backtracking matcher for the grammar of the two patterns (ASCII classes) and compared with `re` on every run (stream rx)",
+    "C20: tools/gens/evec_src.py (translator of evec_sort.py / evec_disp2eig.py / evec_load.py into Generated/EvecSpec.lean) and the meaning CijModel/EvecSrc.lean gives to the extracted data (numpy.argmax = first maximum in row-major order, numpy.repeat, broadcasting, @)",
 ]
 
 STARS = " " + "*" * 74
+SRC_MAX_DIM = 8          # the interpreters of the translated description keep arrays as index functions: small dimensions only
 
 
 # ===================================================================================== helpers
@@ -86,7 +95,10 @@ def gen_sort_case(rng, n, complex_, eps):
 
 
 def real_sort(case, how="list"):
-    from cij.misc.evec_sort import evec_sort
+    if len(case["items"]) % 2:
+        from cij.misc import evec_sort            # the re-export of cij/misc/__init__.py
+    else:
+        from cij.misc.evec_sort import evec_sort
     real = not case["complex"]
     b = present(from_json_c(case["base"]), how, real)
     t = present(from_json_c(case["target"]), how, real)
@@ -150,6 +162,14 @@ def run_sort(ctx: Ctx, res: Result, n_cases):
             res.disagreements.append(Disagreement("c20.sort", {"kind": "sort", "case": case}, gi, m))
         else:
             res.traces_validated += 1
+        if n <= SRC_MAX_DIM:
+            ms = ctx.driver.ask([{"op": "c20.sort_src", "target": enc_c(T), "base": enc_c(B), "n_items": n}])[0]
+            dist["source_interpreter"] = dist.get("source_interpreter", 0) + 1
+            if ms != (gi if not isinstance(gi, str) else "error"):
+                res.disagreements.append(Disagreement("c20.sort_src", {"kind": "sort", "case": case}, gi, ms,
+                                                      note="interpreter of the translated evec_sort (EvecSrc.runSort)"))
+            else:
+                res.traces_validated += 1
         if ci < 2:
             res.samples.append({"stream": "sort", "n": n, "complex": cx, "eps": eps, "sigma": case["sigma"][:6],
                                 "result": got[:6] if not isinstance(got, str) else got, "items": case["items"][:6]})
@@ -158,13 +178,21 @@ def run_sort(ctx: Ctx, res: Result, n_cases):
     # between rows).  Generic (all overlap magnitudes non-zero and pairwise distinct beyond rounding), so the elimination is
     # unambiguous; only the permutation clause and the correspondence are checked here (no position is prescribed).
     n_arb = 0
-    for k in range(40 if ctx.thorough() else 12):
+    arb = dist.setdefault("arbitrary", {"rows_with_max_gt_half>=2": 0, "all_rows_max_gt_half": 0, "two_rows_share_strongest_partner": 0,
+                                        "all_rows_gt_half_and_shared_partner": 0})
+    n_loop = 40 if ctx.thorough() else 12
+    k = -1
+    while True:
+        k += 1
+        # at least three cases per run in which EVERY row maximum exceeds 1/2 and two rows share their strongest partner
+        if k >= n_loop and (arb["all_rows_gt_half_and_shared_partner"] >= 3 or k >= n_loop + 40): break
         if ctx.time_left() < 60: break
         n = [3, 4, 5, 8, 12, 3, 6, 30, 3, 10, 60, 7][k % 12]
+        if k >= n_loop: n = [5, 3, 7][k % 3]
         cx = bool(k % 2)
         case = gen_sort_case(rng, n, cx, 0.0)
         B = numpy.array(from_json_c(case["base"]))
-        if k % 2 == 0:
+        if k % 2 == 0 and k < n_loop:
             T = unitary(rng, n, cx)                              # unrelated basis
         else:
             T = numpy.array(from_json_c(case["target"]))
@@ -172,7 +200,7 @@ def run_sort(ctx: Ctx, res: Result, n_cases):
             M = unitary(rng, 3, cx)
             # strong mixing; in every second such case two base vectors have their LARGEST overlap with the same target
             # (both above 1/2): a row-wise arg-max is then not an assignment, the elimination must resolve it
-            shared = (k % 4 == 1)
+            shared = (k % 4 == 1) or k >= n_loop
             for _ in range(20000):
                 A = numpy.abs(M)
                 if A.max() <= 0.85 and (not shared or (A.max(axis=0).min() > 0.5 and len(set(A.argmax(axis=0))) < 3)): break
@@ -181,6 +209,10 @@ def run_sort(ctx: Ctx, res: Result, n_cases):
         case["target"] = to_json_c(T.astype(complex)); case["sigma"] = None
         mag = numpy.sort(numpy.abs(B.conj() @ T.T).ravel())
         if mag[0] < 1e-9 or numpy.min(numpy.diff(mag)) < 1e-12: continue
+        magm = numpy.abs(B.conj() @ T.T)
+        rows_gt = int((magm.max(axis=1) > 0.5).sum()); share = len(set(magm.argmax(axis=1))) < n
+        arb["rows_with_max_gt_half>=2"] += rows_gt >= 2; arb["all_rows_max_gt_half"] += rows_gt == n
+        arb["two_rows_share_strongest_partner"] += bool(share); arb["all_rows_gt_half_and_shared_partner"] += bool(share and rows_gt == n)
         got = real_sort(case, ["list", "tuple", "ndarray"][k % 3])
         res.evaluations += 1; n_arb += 1
         if isinstance(got, str) or sorted(map(str, got)) != sorted(case["items"]):
@@ -193,6 +225,14 @@ def run_sort(ctx: Ctx, res: Result, n_cases):
             res.disagreements.append(Disagreement("c20.sort:arbitrary", {"kind": "sort-arbitrary", "case": case}, gi, m))
         else:
             res.traces_validated += 1
+        if n <= SRC_MAX_DIM:
+            ms = ctx.driver.ask([{"op": "c20.sort_src", "target": enc_c(T), "base": enc_c(B), "n_items": n}])[0]
+            dist["source_interpreter"] = dist.get("source_interpreter", 0) + 1
+            if ms != (gi if not isinstance(gi, str) else "error"):
+                res.disagreements.append(Disagreement("c20.sort_src:arbitrary", {"kind": "sort-arbitrary", "case": case}, gi, ms,
+                                                      note="interpreter of the translated evec_sort (EvecSrc.runSort)"))
+            else:
+                res.traces_validated += 1
     dist["arbitrary_second_basis"] = n_arb
     # outside the quantifier: duplicated / zero target vectors (None entries) — model vs code only
     for k in range(6):
@@ -260,6 +300,20 @@ def mismatch_cases(rng):
                  "two-vectors-per-row-Mx6N": (int(rng.integers(1, 4)), 2 * m), "3N-rows-of-3N+3": (m, m + 3), "2x(3N/2)-or-3x2N": (3, 2 * na)}[kind]
         a = rng.normal(size=shape) + 1j * rng.normal(size=shape)
         out.append(("disp2eig", kind, {"a": to_json_c(a), "mass": [float(x) for x in mass]}))
+    for k in range(6):
+        na = int(rng.integers(2, 6)); m = 3 * na
+        kind = ["transposed-Mx3N-given-as-3NxM", "transposed-6Nx3N-given-as-3Nx6N", "mass-N+1-with-3(N+1)|MK", "mass-N-1-with-3(N-1)|MK",
+                "3N-rows-of-3N-1", "mass-2N-with-6N|MK"][k]
+        nm = na
+        if kind == "transposed-Mx3N-given-as-3NxM": shape = (m, int(rng.choice([x for x in (1, 2, 4, 5, 7) if x != m])))
+        elif kind == "transposed-6Nx3N-given-as-3Nx6N": shape = (m, 2 * m)
+        elif kind == "mass-N+1-with-3(N+1)|MK": shape = (na + 1, m); nm = na + 1
+        elif kind == "mass-N-1-with-3(N-1)|MK": shape = (na - 1, m); nm = na - 1
+        elif kind == "3N-rows-of-3N-1": shape = (m, m - 1)
+        else: shape = (2, m); nm = 2 * na
+        mass = list(rng.uniform(1, 50, nm))
+        a = rng.normal(size=shape) + 1j * rng.normal(size=shape)
+        out.append(("disp2eig", kind, {"a": to_json_c(a), "mass": [float(x) for x in mass]}))
     return out
 
 
@@ -282,6 +336,10 @@ def run_mismatch(ctx: Ctx, res: Result):
         got = real_mismatch(tool, payload)
         res.evaluations += 1
         dist[f"{tool}:{kind}"] = dist.get(f"{tool}:{kind}", 0) + 1
+        if tool == "disp2eig" and payload["mass"] and payload["a"] and len({len(r) for r in payload["a"]}) == 1:
+            M, K, N3 = len(payload["a"]), len(payload["a"][0]), 3 * len(payload["mass"])
+            if K != N3 and (M * K) % N3 == 0:
+                dist["disp2eig:element_count_divisible_by_3N_but_columns_differ"] = dist.get("disp2eig:element_count_divisible_by_3N_but_columns_differ", 0) + 1
         if got != "error":
             res.oracle_failures.append(OracleFailure(what=f"{tool}: dimension mismatch ({kind}) not rejected",
                                                      input={"kind": "mismatch", "tool": tool, "which": kind, "payload": payload},
@@ -295,6 +353,19 @@ def run_mismatch(ctx: Ctx, res: Result):
         if (m == "error") != (got == "error"):
             res.disagreements.append(Disagreement(f"c20.{tool}:mismatch", {"kind": "mismatch", "tool": tool, "which": kind,
                                                                             "payload": payload}, got, str(m)[:100]))
+        else:
+            res.traces_validated += 1
+        # the interpreter of the translated description must reject as well
+        if tool == "sort":
+            ms = ctx.driver.ask([{"op": "c20.sort_src", "target": enc_c(from_json_c(payload["target"])),
+                                  "base": enc_c(from_json_c(payload["base"])), "n_items": len(payload["items"])}])[0]
+        else:
+            ms = ctx.driver.ask([{"op": "c20.disp2eig_src", "a": enc_c(from_json_c(payload["a"])),
+                                  "mass": [f2b(x) for x in payload["mass"]]}])[0]
+        if (ms == "error") != (got == "error"):
+            res.disagreements.append(Disagreement(f"c20.{tool}_src:mismatch", {"kind": "mismatch", "tool": tool, "which": kind,
+                                                                                "payload": payload}, got, str(ms)[:100],
+                                                  note="interpreter of the translated description"))
         else:
             res.traces_validated += 1
 
@@ -371,6 +442,18 @@ def run_disp(ctx: Ctx, res: Result, n_cases):
             res.disagreements.append(Disagreement("c20.disp2eig", {"kind": "disp2eig", "case": case}, "max|Δ|", d))
         else:
             res.traces_validated += 1
+        if na <= 3:
+            ms = ctx.driver.ask([{"op": "c20.disp2eig_src", "a": enc_c(a), "mass": [f2b(x) for x in case["mass"]]}])[0]
+            dist["source_interpreter"] = dist.get("source_interpreter", 0) + 1
+            ok = ms != "error"
+            if ok:
+                mso = numpy.array([[complex(b2f(z[0]), b2f(z[1])) for z in r] for r in ms])
+                ok = mso.shape == out.shape and float(numpy.abs(mso - out).max()) <= 1e-13
+            if not ok:
+                res.disagreements.append(Disagreement("c20.disp2eig_src", {"kind": "disp2eig", "case": case}, "real result", str(ms)[:100],
+                                                      note="interpreter of the translated evec_disp2eig (EvecSrc.runDisp)"))
+            else:
+                res.traces_validated += 1
         if ci < 1:
             res.samples.append({"stream": "disp2eig", "atoms": na, "masses": case["mass"][:4], "|c|": [abs(complex(*z)) for z in case["c"][:4]],
                                 "row norms before": [float(numpy.linalg.norm(r)) for r in a[:4]],
@@ -393,7 +476,8 @@ def dec(rng, lo, hi, d, neg_zero=True):
     return "%.*f" % (d, x)
 
 
-def gen_eig_file(rng, nq, nat, wide=False):
+def gen_eig_file(rng, nq, nat, wide=False, force_q=None, tight=False):
+    """force_q: {q-point index: [three strings]} printed instead of random coordinates; tight: single blanks between the coordinates"""
     np_ = 3 * nat
     lines, expect = [], []
     for iq in range(nq):
@@ -401,7 +485,9 @@ def gen_eig_file(rng, nq, nat, wide=False):
         if (iq == 0 and rng.random() < 0.6) or rng.random() < 0.1:
             # the Γ point as matdyn prints it (0.0000, sometimes -0.0000); its eigenvectors are printed complex like all others
             q = [("-0.0000" if rng.random() < 0.2 else "0.0000") for _ in range(3)]
-        lines += ["     diagonalizing the dynamical matrix ...", "", " q = " + "".join("%12s" % t for t in q), STARS]
+        if force_q and iq in force_q: q = list(force_q[iq])
+        qline = " q = " + (" ".join(q) if tight else "".join("%12s" % t for t in q))
+        lines += ["     diagonalizing the dynamical matrix ...", "", qline, STARS]
         modes = []
         for im in range(np_):
             thz = dec(rng, -5.0, 60.0, 6); cm = dec(rng, -150.0, 2000.0, 6)
@@ -474,14 +560,17 @@ def reprint_eig(parsed):
 
 def run_load(ctx: Ctx, res: Result, tmp, n_cases):
     rng = ctx.rng
-    dist = res.distribution.setdefault("load", {"cases": 0, "nq": {}, "np": {}, "numbers": 0, "variants": {}, "layout_check": None})
+    dist = res.distribution.setdefault("load", {"cases": 0, "nq": {}, "np": {}, "numbers": 0, "variants": {}, "layout_check": None,
+                                                "gamma_qpoints": {}, "gamma_with_complex_vectors": 0, "source_interpreter": 0})
     # layout: the printer reproduces the shipped file from what the real loader parsed
     shipped = os.path.join(os.environ.get("CIJ_REPO", "/repo"), "tests", "data", "pwscf.eig")
     if os.path.exists(shipped):
         txt = open(shipped).read()
         r = real_load(txt, 2, 60, tmp)
-        same = (not isinstance(r, str)) and reprint_eig(r) == txt
-        dist["layout_check"] = "printer reproduces tests/data/pwscf.eig byte for byte" if same else "DIFFERS from tests/data/pwscf.eig"
+        # the sign of a printed negative zero is not kept by `x + y * 1j` (0.0 + -0.0 = 0.0): compared modulo that sign
+        nz = lambda t: t.replace("-0.000000", " 0.000000").rstrip()     # (the shipped file ends with a blank and no newline)
+        same = (not isinstance(r, str)) and nz(reprint_eig(r)) == nz(txt)
+        dist["layout_check"] = "printer reproduces tests/data/pwscf.eig byte for byte (modulo the sign of -0.000000)" if same else "DIFFERS from tests/data/pwscf.eig"
         if not same: res.contract_failures.append("harness printer does not reproduce tests/data/pwscf.eig (or the loader failed on it)")
         m = ctx.driver.ask([{"op": "c20.load", "lines": txt.split("\n")[:-1], "nq": 2, "np": 60}])[0]
         res.evaluations += 1
@@ -491,10 +580,18 @@ def run_load(ctx: Ctx, res: Result, tmp, n_cases):
             res.traces_validated += 1
     for ci in range(n_cases):
         if ctx.time_left() < 30: res.notes.append("load stream cut short"); break
-        nq = [1, 6, 2][ci] if ci < 3 else int(rng.integers(1, 7))
-        nat = [1, 20, 3][ci] if ci < 3 else int(rng.integers(1, 21))
-        if nq * nat * nat > 900 and ci >= 3: nat = max(1, nat // 2)
-        case = gen_eig_file(rng, nq, nat)
+        nq = [1, 6, 2, 3][ci] if ci < 4 else int(rng.integers(1, 7))
+        nat = [1, 20, 3, 2][ci] if ci < 4 else int(rng.integers(1, 21))
+        if nq * nat * nat > 900 and ci >= 4: nat = max(1, nat // 2)
+        # Γ as different programs print it — in every run, first / in the middle / last in the file; the vectors stay complex
+        Z6, Z4, M4, Z0 = ["0.000000"] * 3, ["0.0000"] * 3, ["-0.0000", "0.0000", "-0.0000"], ["0", "0", "0"]
+        force = [{0: Z6}, {0: Z4, 2: Z6, 3: M4, 5: Z0}, {1: Z6}, {0: Z0, 2: Z6}][ci] if ci < 4 else None
+        case = gen_eig_file(rng, nq, nat, force_q=force, tight=(ci in (0, 3)))
+        for iq, (eq, ems) in enumerate(case["expect"]):
+            if all(float(t) == 0.0 for t in eq):
+                key = " ".join(eq)
+                dist["gamma_qpoints"][key] = dist["gamma_qpoints"].get(key, 0) + 1
+                if any(float(x) != 0.0 for _, _, _, vec in ems for x in vec[1::2]): dist["gamma_with_complex_vectors"] += 1
         r = real_load(case["text"], case["nq"], case["np"], tmp)
         res.evaluations += 1
         dist["cases"] += 1; dist["nq"][nq] = dist["nq"].get(nq, 0) + 1; dist["np"][3 * nat] = dist["np"].get(3 * nat, 0) + 1
@@ -515,6 +612,17 @@ def run_load(ctx: Ctx, res: Result, tmp, n_cases):
                          ("nq-zero", lines, 0, case["np"]),
                          ("wide-components", gen_eig_file(rng, 1, nat, wide=True)["text"].split("\n")[:-1], 1, case["np"])]
         ms = ctx.driver.ask([{"op": "c20.load", "lines": l, "nq": a, "np": b} for _, l, a, b in variants])
+        if case["np"] <= 30:
+            # the loader driven by the translated description (regexes by the backtracking matcher, slices, converters, steps)
+            mss = ctx.driver.ask([{"op": "c20.load_src", "lines": l, "nq": a, "np": b} for _, l, a, b in variants])
+            for (kind, l, a, b), m1, m2 in zip(variants, ms, mss):
+                dist["source_interpreter"] += 1
+                if m1 != m2:
+                    res.disagreements.append(Disagreement("c20.load_src", {"kind": "load-text", "variant": kind, "text": "\n".join(l) + "\n",
+                                                                           "nq": a, "np": b}, str(m1)[:200], str(m2)[:200],
+                                                          note="interpreter of the translated evec_load (EvecSrc.evecLoadS) vs the model"))
+                else:
+                    res.traces_validated += 1
         for (kind, l, a, b), m in zip(variants, ms):
             rr = r if kind == "valid" else real_load("\n".join(l) + "\n", a, b, tmp)
             if kind != "valid":
@@ -527,6 +635,55 @@ def run_load(ctx: Ctx, res: Result, tmp, n_cases):
         if ci == 0:
             res.samples.append({"stream": "load", "nq": nq, "np": 3 * nat, "file lines": lines[2:6],
                                 "parsed": str(r[0][0]) + " " + str(r[0][1][0][0]) if not isinstance(r, str) else r})
+
+
+# ===================================================================================== regex semantics
+def rx_strings(rng, n):
+    """q lines, freq lines, damaged copies, adversarial strings for the backtracking order (ASCII only)"""
+    out = []
+    good = ["0.1258", "-0.0347", "0.0000", "-0.0000", "0", "12", "1.", "-7.", "3.25", "007", "4.50", "27.039414", "-0.626714"]
+    bad = ["-", ".5", "1.2.3", "--1", "1e5", "", "+1", "1,5"]
+    num = lambda: str(rng.choice(good if rng.random() < 0.9 else bad))
+    pick = lambda ok, others: ok if rng.random() < 0.85 else str(rng.choice(others))
+    sp = lambda lo=0: " " * int(rng.integers(lo, 4)) if rng.random() < 0.85 else rng.choice(["\t", " \t ", "\x0b", "\x0c", "\r"])
+    for _ in range(n):
+        u = rng.random()
+        if u < 0.35:
+            s = sp() + "q" + sp() + "=" + sp() + num() + sp(1) + num() + sp(1) + num() + rng.choice(["", " ", "x", ".5", "7", " 9 9"])
+        elif u < 0.7:
+            s = sp() + "freq" + sp() + "(" + sp() + pick(str(rng.integers(0, 200)), ["007", "", "3 4", "-1"]) + pick(")", [" )", ""]) + sp() + "=" + sp() \
+                + num() + sp() + pick("[THz]", ["[THz", "[ THz]", "[thz]", "THz"]) + sp() + "=" + sp() + num() + sp() \
+                + pick("[cm-1]", ["[cm-1", "[cm1]", "[cm -1]", "[cm-1]]"])
+        else:
+            s = "".join(rng.choice(list("q= -.0123fre()[]THzcm1\t"), size=int(rng.integers(0, 30))))
+        if rng.random() < 0.3 and s:
+            i = int(rng.integers(0, len(s)))
+            s = s[:i] + rng.choice(["", s[i] * 2, "q=", " ", ".", "-", "freq("]) + s[i + 1:]
+        if rng.random() < 0.15: s = s + " q = 1 2 3"
+        out.append(s)
+    out += ["q=1 2 3", "q = 1. 2.5.3 7", "q=-1.-2 -3", "qq==1 2 3", "q = 1 2", "q = 1 2 3.4.5", "q=1\t2\x0b3", "", "q",
+            "freq(1)=1[THz]=2[cm-1]", "freq ( 1 ) = 1 [THz] = 2 [cm-1]", "freqfreq(2)=3.[THz]=-4.5[cm-1]x", "freq(1)=1.2.3[THz]=2[cm-1]"]
+    return [str(x) for x in out]
+
+
+def run_rx(ctx: Ctx, res: Result, n):
+    import importlib
+    EL = importlib.import_module("cij.misc.evec_load")     # `cij.misc.evec_load` the attribute is the re-exported function
+    dist = res.distribution.setdefault("rx", {"strings": 0, "q_matches": 0, "mode_matches": 0, "no_match": 0})
+    ss = rx_strings(ctx.rng, n)
+    for which, pat in (("q", EL.Q_COORDS_REGEX), ("mode", EL.MODE_INDEX_REGEX)):
+        got = ctx.driver.ask([{"op": "c20.rx", "which": which, "strings": ss}])[0]
+        for s_, g in zip(ss, got):
+            m = pat.search(s_)
+            want = list(m.groups()) if m else None
+            res.evaluations += 1; dist["strings"] += 1
+            if want is None: dist["no_match"] += 1
+            else: dist["q_matches" if which == "q" else "mode_matches"] += 1
+            if g != want:
+                res.disagreements.append(Disagreement("c20.rx", {"kind": "rx", "which": which, "string": s_, "pattern": pat.pattern}, want, g,
+                                                      note="Python re on the module's compiled pattern vs the Lean backtracking matcher on the translated pattern"))
+            else:
+                res.traces_validated += 1
 
 
 # ===================================================================================== entry points
@@ -543,6 +700,7 @@ def run(ctx: Ctx) -> Result:
         run_mismatch(ctx, res)
         run_disp(ctx, res, 300 if th else 40)
         run_load(ctx, res, tmp, 80 if th else 12)
+        run_rx(ctx, res, 3000 if th else 400)
     finally:
         shutil.rmtree(tmp, ignore_errors=True)
     res.distinct_nontrivial = res.evaluations
